@@ -22,7 +22,16 @@
    the bytes in the signal pipe, [now] the virtual clock, [rand] the stream random() returns.
 
    User callbacks are data: [beh key n] is what the n-th invocation of a callback registered with user
-   data [key] does (a list of API calls / environment actions) and returns. *)
+   data [key] does (a list of API calls / environment actions) and returns.
+
+   Code variants: the state carries a record [fixes] saying which repairs the modelled tree contains
+   (a failed poll add clears the whole entry; signal_del removes every clone; run starts with the todo
+   left over).  [tree_fixes] is computed from constants that harness/consts/loop.c obtains by probing the
+   behaviour of the tree on every run, so the same model follows /repo before and after those commits.
+
+   Ghost log: besides the observable events the state's [out] records, for the theorems only, the
+   creation (EvAdd), callback entry (EvInv) and removal (EvDel) of every registration, identified by a
+   uid taken from an allocation counter at the add call. *)
 Require Import ZArith List Bool Lia.
 Require Import Verif.gen.Consts_loop.
 Import ListNotations.
@@ -103,11 +112,13 @@ Inductive ev :=
    harness/consts/loop.c); the model follows the code either way *)
 Record fixes := { fx_polladd : bool;   (* fixes/C08-poll-add-failure: a failed add clears the whole entry *)
                   fx_sigdel : bool;    (* fixes/C08-signal-del-clones: signal_del removes every clone *)
-                  fx_runtodo : bool }. (* C09's run-pending-todo: run starts with the todo left over *)
-Definition fixes_all : fixes := {| fx_polladd := true; fx_sigdel := true; fx_runtodo := true |}.
-Definition fixes_none : fixes := {| fx_polladd := false; fx_sigdel := false; fx_runtodo := false |}.
+                  fx_runtodo : bool;   (* C09's run-pending-todo: run starts with the todo left over *)
+                  fx_pollreuse : bool }. (* fixes/C08-poll-add-live-fd: an fd number that still has a live entry is refused *)
+Definition fixes_all : fixes := {| fx_polladd := true; fx_sigdel := true; fx_runtodo := true; fx_pollreuse := true |}.
+Definition fixes_none : fixes := {| fx_polladd := false; fx_sigdel := false; fx_runtodo := false; fx_pollreuse := false |}.
 Definition tree_fixes : fixes :=
-  {| fx_polladd := LOOP_FIX_POLLADD =? 1; fx_sigdel := LOOP_FIX_SIGDEL =? 1; fx_runtodo := LOOP_FIX_RUNTODO =? 1 |}.
+  {| fx_polladd := LOOP_FIX_POLLADD =? 1; fx_sigdel := LOOP_FIX_SIGDEL =? 1; fx_runtodo := LOOP_FIX_RUNTODO =? 1;
+     fx_pollreuse := LOOP_FIX_POLLREUSE =? 1 |}.
 
 Record state := {
   lv : prio -> level;
@@ -425,7 +436,11 @@ Definition poll_slot st : nat * state :=
 (* _poll_add_ followed by the caller's assignments (is_sig: qb_loop_signals_create's pipe entry).
    A failed driver.add leaves everything but the state in place, and the caller does not set
    poll_dispatch_fn / type / add_to_jobs. *)
+Definition fd_is_live (fd : Z) (e : pslot) : bool :=
+  (p_fd e =? fd) && (est_eqb (p_state e) Active || est_eqb (p_state e) Joblist).
 Definition poll_add_gen (is_sig : bool) (p : prio) (fd events key : Z) st : Z * state :=
+  (* repaired: a descriptor number that still has a live entry is refused before anything else happens *)
+  if fx_pollreuse (fx st) && existsb (fd_is_live fd) (polls st) then (- LOOP_EEXIST, st) else
   let '(i, st) := poll_slot st in
   let '(u, st) := fresh_uid st in
   let '(c, st) := draw_check_p 200 0 st in
